@@ -27,6 +27,11 @@ QUERIES = [
 ]
 
 
+QUERIES.append(Query("ctx_lifecycle", S, "harness_lifecycle", defs=["C20_LIFE"], unwind=140, timeout=1500, mem_gb=8, flags=["--memory-leak-check"],
+                     desc="context life cycle: create = exactly one allocation, preallocated create = same state without allocating, randomize (seed / NULL), clone / preallocated clone = identical state, randomize(NULL) = fresh state, destroy releases everything (leak check)",
+                     bounds="one sequence create -> prealloc create -> randomize -> clone -> prealloc clone -> reset -> destroy; any seed"))
+
+
 def _statics(q, res):
     """side condition (symbol table, not a solver query): mutable static-lifetime objects of the library TU"""
     wd = os.path.join(os.environ.get("VERIF_SCRATCH", "/tmp"), "verif-statics-%d" % os.getpid())
@@ -96,5 +101,5 @@ ASSUMPTIONS = ["multiplicative kernels and SHA-256 compression are uninterpreted
                "ecdsa_sign: first RFC 6979 attempt only", "objects hold canonical coordinates", "64-bit limbs only; malloc count / create-clone-destroy sequences are covered by the ctx_lifecycle query only as far as listed there"]
 MANIFEST_ENTRY = {
     "text": "2-safety bounded model checking of the real code (CBMC): ECDSA/Schnorr sign+verify, key generation, tweaks, ECDH, DER/pubkey codecs, Pedersen commit and MuSig partial_sign are each executed twice on the same arguments under two independent ARBITRARY contexts (blinding state, callback data, declassify flag, replaced-but-correct compression function) with goto-instrument --nondet-static making every mutable static start arbitrary: outputs/return values/callback counts equal, contexts unchanged; static-context behaviour; inductive step for the blinding invariant of ecmult_gen_blind for all states and seeds.",
-    "note": "Thread interleavings are not explored (tool refuses; replaced by the sufficient condition: read-only contexts + no mutable statics + output-only writes). gn*G independent of the blinding state is assumed in the 2-run queries and justified by blind_step + the group law (C05, not encodable). Create/clone/destroy/malloc-count and set_sha256_compression are not yet covered by a solver query. First RFC 6979 attempt only.",
+    "note": "Thread interleavings are not explored (tool refuses; replaced by the sufficient condition: read-only contexts + no mutable statics + output-only writes). gn*G independent of the blinding state is assumed in the 2-run queries and justified by blind_step + the group law (C05, not encodable). set_sha256_compression is not covered by a solver query; the create/clone/randomize/destroy query covers one representative sequence. First RFC 6979 attempt only.",
 }
